@@ -247,6 +247,9 @@ def _values(prog, number, nums):
             q = math.floor(s * 64.0) / 64.0
             q = max(-48.0, min(48.0, q))
             s = q + (number + 1) / 4096.0 * (1.0 if k == 0 else -1.0)
+        inf = (prog.get("infs") or {}).get(str(number))
+        if inf is not None and inf[0] == k:
+            s = math.inf * inf[1]       # a diverged objective: exactly one +inf / -inf per objective, so values stay distinct
         vals.append(s)
     return vals
 
